@@ -48,7 +48,9 @@ def gen_cases(ctx):
                "no_children": [k for k in ids if rng.random() < 0.15] if not deep else [],
                "cls": {str(k): rng.choice(["meshnm", "meshnm", "mesh"]) for k in ids},
                "profiles": profs, "hostile": hostile, "seed": rng.getrandbits(30),
-               "timeout": rng.choice([3.0, 7.5]) if not deep else 15.0, "unknown_id": rng.choice([k for k in range(1, 256) if k not in ids])}
+               # the timeout has to leave room for the protocol's own pace (55 ms poll + 225 ms per
+               # refusing contact, one level per attempt): 12 concurrent joiners need 2.4-4.1 s
+               "timeout": 15.0 if deep or nj >= 9 else (7.5 if nj >= 5 else rng.choice([3.0, 7.5])), "unknown_id": rng.choice([k for k in range(1, 256) if k not in ids])}
 
 
 def run_case(ctx, case):
@@ -117,7 +119,7 @@ def _run(ctx, case, net):
     # dynamic barriers: phase 2 starts when every joiner has returned from renew_address();
     # inside phases 2 and 3 the nodes act strictly one at a time ("turn")
     st = {"joined": 0, "turn2": 0, "turn3": 0, "done": 0}
-    end_cap = t0 + int((2.0 + T + 2.0) * 1e9) + len(order) * 3000 * W.MS + len(rel) * int((T + 3.0) * 1e9)
+    end_cap = t0 + int((2.0 + T + 2.0) * 1e9) + len(order) * 4000 * W.MS + len(rel) * int((T + 3.0) * 1e9)
     applog = {k: joiners[k].applog for k in ids}
     world.horizon = end_cap + 10 * 1000 * W.MS
 
@@ -132,6 +134,19 @@ def _run(ctx, case, net):
         while wn.t < t_abs:
             net.pump_idle(nn)
             net.wait(nn, min(t_abs - wn.t, 2 * W.MS))
+
+    def wait_quiet(nn, gap=30 * W.MS, cap=3000 * W.MS):
+        """phases 2 and 3 act on a quiet network (one thing at a time): left-over traffic of the
+        previous node's step (replies still being routed towards 0o4444, relays retrying) is
+        allowed to drain first; only the joins of phase 1 are concurrent"""
+        wn = nn.wnode
+        t_cap = wn.t + cap
+        while wn.t < t_cap:
+            last = net.air.log[-1].t1 if net.air.log else 0
+            if wn.t - last >= gap:
+                return
+            pump_until(nn, min(max(last + gap, wn.t + W.MS), t_cap))
+        ctx.count("quiet_wait_capped")
 
     def master_app(nn):
         pump_while(nn, lambda: st["done"] < len(ids))
@@ -157,11 +172,13 @@ def _run(ctx, case, net):
         except W.VirtualDeadline:
             r["join"] = "no return"
         r["join_ms"] = (wn.t - t_start) / 1e6
+        r["t_start"], r["t_end"] = t_start, wn.t
         r["addr_after_join"] = o.node_address
         st["joined"] += 1
         me = order.index(k)
         pump_while(nn, lambda: st["joined"] < len(ids) or st["turn2"] != me)
         pump_until(nn, wn.t + 10 * W.MS)
+        wait_quiet(nn)
         if r["join"] not in (None, "no return"):
             try:
                 others = [j for j in ids if j != k and res[j].get("join") not in (None, "no return")]
@@ -198,6 +215,7 @@ def _run(ctx, case, net):
         if k in rel:
             pump_while(nn, lambda: st["turn2"] < len(ids) or st["turn3"] != rel.index(k))
             pump_until(nn, wn.t + 10 * W.MS)
+            wait_quiet(nn)
             has_kids = any(net_ref.is_descendant(v, o.node_address) for v in master.obj.dhcp_dict.values())
             # releasing a node that relays for others would orphan them (outside the property)
             if r["join"] not in (None, "no return") and not has_kids:
@@ -259,10 +277,23 @@ def _run(ctx, case, net):
         if j is not None and (not net_ref.is_node_address(j) or j in (0, 0o4444)):
             ctx.violation("join-invalid-address", "ID %d renew_address() returned %r" % (k, j), case)
             return
-        if r.get("join_ms", 0) > case["timeout"] * 1000 + 700:
+        # "within the given timeout" is claimed on the loss-free medium only; the driver looks at
+        # the clock between attempts, so a call may overshoot by the attempt that was running:
+        # pause (<=105 ms) + poll (55 ms) + 4 contacts x 225 ms + the two verifying lookups
+        if not hostile and r.get("join_ms", 0) > case["timeout"] * 1000 + 1500:
             ctx.violation("join-exceeds-timeout", "ID %d: renew_address(%s) took %.0f virtual ms"
                           % (k, case["timeout"], r["join_ms"]), case)
             return
+        if not hostile and "t_start" in r:
+            polls = [p.t0 for p in net.air.log if p.src is joiners[k].radio and p.kind == "data"
+                     and r["t_start"] <= p.t0 <= r["t_end"] and len(p.payload) >= 8
+                     and p.payload[6] == 194]
+            ctx.count("join_attempts_observed", len(polls))
+            if polls and max(polls) > r["t_start"] + int(case["timeout"] * 1e9) + 150 * W.MS:
+                ctx.violation("join-attempt-after-timeout", "ID %d: renew_address(%s) started a new "
+                              "poll %.0f ms after the call began" % (k, case["timeout"],
+                                                                    (max(polls) - r["t_start"]) / 1e6), case)
+                return
     if hostile:
         ctx.nontrivial((len(ids), "hostile"))
         return
